@@ -16,25 +16,28 @@ structure SRel (t t' : Task) : Prop where
   id : t'.id = t.id
   inst : t'.inst = t.inst
   crashes : t'.crashes = t.crashes
-  keep : ¬ isWaiting t.state → ¬ isWaiting t'.state ∧ (locked t'.state ↔ locked t.state)
+  keep : ¬ isWaiting t.state → ¬ isWaiting t'.state ∧ (locked t'.state ↔ locked t.state) ∧
+    (slocked t'.state ↔ slocked t.state)
 
-theorem SRel.refl (t : Task) : SRel t t := ⟨rfl, rfl, rfl, fun h => ⟨h, Iff.rfl⟩⟩
+theorem SRel.refl (t : Task) : SRel t t := ⟨rfl, rfl, rfl, fun h => ⟨h, Iff.rfl, Iff.rfl⟩⟩
 
 theorem SRel.trans {a b c : Task} (h1 : SRel a b) (h2 : SRel b c) : SRel a c := by
   refine ⟨h2.id.trans h1.id, h2.inst.trans h1.inst, h2.crashes.trans h1.crashes, fun hw => ?_⟩
-  obtain ⟨x, y⟩ := h1.keep hw
-  obtain ⟨x', y'⟩ := h2.keep x
-  exact ⟨x', y'.trans y⟩
+  obtain ⟨x, y, z⟩ := h1.keep hw
+  obtain ⟨x', y', z'⟩ := h2.keep x
+  exact ⟨x', y'.trans y, z'.trans z⟩
 
 theorem SRel.state (told : Task) (st : TS)
-    (h : ¬ isWaiting told.state → ¬ isWaiting st ∧ (locked st ↔ locked told.state)) :
+    (h : ¬ isWaiting told.state → ¬ isWaiting st ∧ (locked st ↔ locked told.state) ∧
+      (slocked st ↔ slocked told.state)) :
     SRel told { told with state := st } := ⟨rfl, rfl, rfl, h⟩
 
 theorem locked_not_waiting {st : TS} (h : locked st) : ¬ isWaiting st := by cases st <;> simp_all
 
 theorem SRel.toTRel {cr : Prop} {t t' : Task} (h : SRel t t') : TRel False cr t t' :=
   ⟨h.id, Nat.le_of_eq h.inst.symm, Nat.le_of_eq h.crashes.symm, fun f => f.elim,
-    fun hl => Or.inl ((h.keep (locked_not_waiting hl)).2.mpr hl), fun _ => h.crashes⟩
+    fun hl => Or.inl ((h.keep (locked_not_waiting (locked_of_slocked hl))).2.2.mpr hl),
+    fun _ => Or.inr (Or.inr (Or.inr (fun f => f.elim))), fun f => f.elim, fun _ => h.crashes⟩
 
 def SEvoL (ts ts' : List Task) : Prop := ∀ t' ∈ ts', ∃ t ∈ ts, SRel t t'
 def SEvo (s s' : State) : Prop := SEvoL s.tasks s'.tasks
@@ -96,7 +99,7 @@ theorem HeldIn.fwd {s s' : State} {x : TaskId} (h : HeldIn s x) (e : SEvo s s') 
   obtain ⟨t0, hf0, r⟩ := e.find hn hf'
   have : some t0 = some t := hf0.symm.trans hf
   cases this
-  obtain ⟨a, b⟩ := r.keep hw
+  obtain ⟨a, b, _⟩ := r.keep hw
   exact ⟨t', hf', a, fun hl' => hl (b.mp hl')⟩
 
 theorem WaitIn.back {s s' : State} {x : TaskId} (h : WaitIn s' x) (e : SEvo s s') (hn : (taskIds s.tasks).Nodup) :
@@ -207,7 +210,7 @@ theorem placeSnBody_s {s s' : State} {m m' : List WUpdate} {v : Nat} {r : Rq} {i
       · -- retracting: redirect replaced
         rename_i old hs
         have hr : SRel task { task with state := .retracting old } :=
-          SRel.state task _ (fun _ => ⟨by simp, by simp [hs]⟩)
+          SRel.state task _ (fun _ => ⟨by simp, by simp [hs], by simp [hs]⟩)
         split at h
         · split at h
           · cases h
@@ -232,7 +235,7 @@ theorem placeSnBody_s {s s' : State} {m m' : List WUpdate} {v : Nat} {r : Rq} {i
             have e : SEvo s (State.setTask { s2 with redirects := s2.redirects ++ [(id, w, v)] }
                 { task with state := .retracting old }) :=
               SEvo.set (by have := withWorker_tasks h2; exact this.trans hts) ht'
-                (SRel.state task _ (fun _ => ⟨by simp, by simp [hs]⟩))
+                (SRel.state task _ (fun _ => ⟨by simp, by simp [hs], by simp [hs]⟩))
             refine ⟨e, ?_⟩
             intro x hx
             rcases mem_mIds_updAt (extra := []) (fun u => uIds_retracts u _) hx with h3 | h3
@@ -622,12 +625,8 @@ theorem Tr.of_post' {cr : Prop} {s s' : State} {l : List (TaskId × Nat)} (e : E
     obtain ⟨t', hf, hi, hl⟩ := hp p hpl
     rcases hl with hl | ⟨t, ht, hid, hnl, hle⟩
     · obtain ⟨t, ht, r⟩ := e t' (findTask_some_mem hf)
-      refine ⟨t, ht, r.id.symm.trans (findTask_some_id hf), hi ▸ r.inst, ?_, fun f => f.elim⟩
-      intro hlk
-      rcases r.lock hlk with h | h
-      · exact absurd h hl
-      · exact hi ▸ h
-    · exact ⟨t, ht, hid, hle, fun h => absurd h hnl, fun f => f.elim⟩
+      exact ⟨t, ht, r.id.symm.trans (findTask_some_id hf), hi ▸ r.inst, fun f => f.elim, fun f => f.elim⟩
+    · exact ⟨t, ht, hid, hle, fun f => f.elim, fun f => f.elim⟩
   · intro p hpl t'' ht'' hid
     obtain ⟨t', hf, hi, _⟩ := hp p hpl
     have := mem_find_of_nodup hn ht''
@@ -649,7 +648,8 @@ when the round ends -/
 theorem schedule_fx {cr : Prop} {s s' : State} {sol : Solution} {o : Out} (hn : (taskIds s.tasks).Nodup)
     (h : s.schedule sol = .ok (s', o)) :
     SEvo s s' ∧ Tr False s (sends o.msgs) s' ∧ starts o.cbs = [] ∧
-    ∀ p ∈ sends o.msgs, ∃ t', findTask s'.tasks p.1 = some t' ∧ ¬ isWaiting t'.state := by
+    (∀ p ∈ sends o.msgs, ∃ t', findTask s'.tasks p.1 = some t' ∧ ¬ isWaiting t'.state) ∧
+    ∀ p ∈ sends o.msgs, ∃ t ∈ s.tasks, t.id = p.1 ∧ t.inst ≤ p.2 ∧ ¬ locked t.state := by
   simp only [State.schedule] at h
   split at h
   · cases h
@@ -707,7 +707,7 @@ theorem schedule_fx {cr : Prop} {s s' : State} {sol : Solution} {o : Out} (hn : 
                 refine ⟨t, by rw [findTask_some_id hf]; exact hf, rfl, by simp [hs], Or.inr ?_⟩
                 exact ⟨t0, findTask_some_mem hf0, (findTask_some_id hf0).trans (findTask_some_id hf).symm,
                   not_locked_of_waiting hw0, Nat.le_of_eq r.inst.symm⟩
-            refine ⟨e, ?_, rfl, ?_⟩
+            refine ⟨e, ?_, rfl, ?_, ?_⟩
             · refine Tr.of_post' (cr := cr) (s' := { s3 with needSched := false }) e.evo hn3 ?_
               intro p hp
               obtain ⟨t', a, b, _, d⟩ := hall p hp
@@ -715,6 +715,15 @@ theorem schedule_fx {cr : Prop} {s s' : State} {sol : Solution} {o : Out} (hn : 
             · intro p hp
               obtain ⟨t', a, _, c, _⟩ := hall p hp
               exact ⟨t', a, c⟩
+            · -- no sent task was locked when the round started
+              intro p hp
+              obtain ⟨t', a, b, c, d⟩ := hall p hp
+              rcases d with d | ⟨t, ht, hid, hnl, hle⟩
+              · obtain ⟨t, ht, r⟩ := e t' (findTask_some_mem a)
+                refine ⟨t, ht, r.id.symm.trans (findTask_some_id a), by rw [← b, r.inst]; exact Nat.le_refl _, ?_⟩
+                intro hl
+                exact d ((r.keep (locked_not_waiting hl)).2.1.mpr hl)
+              · exact ⟨t, ht, hid, hle, hnl⟩
 
 
 end HqModel.Core
